@@ -354,6 +354,7 @@ func (v *FnV) callWithArgs0(st *State, call *ast.CallExpr, preArgs []Value, ci *
 				ci.idx = v.expr(st.fork(), ix.Index).S
 			}
 		}
+		v.beforeCall(st, ci, call)
 		// a contract attached to the NAMED function type of the callee value
 		// (//@ func <TypeName>): every value of that type is assumed to satisfy it
 		if nt, ok := types.Unalias(v.typeOf(fun)).(*types.Named); ok && sig != nil && nt.Obj().Pkg() != nil {
@@ -411,6 +412,7 @@ func (v *FnV) callWithArgs0(st *State, call *ast.CallExpr, preArgs []Value, ci *
 	if recv != nil && isInterface(recv.T) {
 		args := v.evalArgs(st, call, sig, preArgs)
 		ci.full, ci.args, ci.recv = full, args, recv
+		v.beforeCall(st, ci, call)
 		if fc, ok := v.e.cs.Funcs[full]; ok {
 			_, nw := fc.Extra["nowrite"]
 			v.callWriteCheck(st, call, shortName(full), fc.Pure || nw)
@@ -428,6 +430,16 @@ func (v *FnV) callWithArgs0(st *State, call *ast.CallExpr, preArgs []Value, ci *
 	}
 	args := v.evalArgs(st, call, sig, preArgs)
 	ci.full, ci.args, ci.recv = full, args, recv
+	v.beforeCall(st, ci, call)
+	for _, l := range v.fc.Extra["opaque"] {
+		for _, name := range strings.Fields(l) {
+			if shortName(full) == name || strings.HasSuffix(full, "."+name) {
+				// the caller's contract asks for this callee to be treated as an opaque pure function here
+				v.c.trusted[v.name+": "+shortName(full)+" is treated as an opaque function without heap effects (opaque "+name+")"] = true
+				return v.havocResults(st, call, fn.Name())
+			}
+		}
+	}
 	if fc, ok := v.e.cs.Funcs[full]; ok && !fc.Inline {
 		_, nw := fc.Extra["nowrite"]
 		v.callWriteCheck(st, call, shortName(full), fc.Pure || nw)
